@@ -67,6 +67,7 @@ type c02Group struct {
 	inside  int
 	want    int
 	release chan struct{}
+	topic   string // the publish topic the handler was added with
 }
 
 func (g *c02Group) lookup(uuid string) *c02Case {
@@ -214,7 +215,7 @@ func (g *c02Group) onPublish(call int, topic string, msgs []*message.Message) er
 		}
 		ids = append(ids, id)
 	}
-	if topic != "out" {
+	if topic != g.topic {
 		ids = append(ids, 9999)
 	}
 	c.rec("publish", ids, script.Settlement(c.msg))
@@ -231,10 +232,22 @@ func (g *c02Group) onPublish(call int, topic string, msgs []*message.Message) er
 	}
 }
 
+// c02LoopPubSub is one object that is both the handler's subscriber and its publisher
+type c02LoopPubSub struct {
+	*script.Subscriber
+	pub *script.Publisher
+}
+
+func (l *c02LoopPubSub) Publish(topic string, msgs ...*message.Message) error { return l.pub.Publish(topic, msgs...) }
+func (l *c02LoopPubSub) Close() error                                       { l.pub.Close(); return l.Subscriber.Close() }
+
 var c02Abort bool // set once a group saw messages that are never settled: later groups are not run
 
 func c02RunGroup(rt *hookrt.Runtime, pubKind int, mws []int, cases []*c02Case) error {
-	g := &c02Group{cases: map[string]*c02Case{}}
+	g := &c02Group{cases: map[string]*c02Case{}, topic: "out"}
+	if pubKind == 3 {
+		g.topic = "in"
+	}
 	for _, c := range cases {
 		g.cases[c.ID] = c
 		c.produced = map[int]*message.Message{}
@@ -268,6 +281,9 @@ func c02RunGroup(rt *hookrt.Runtime, pubKind int, mws []int, cases []*c02Case) e
 	pub := &script.Publisher{OnPublish: g.onPublish}
 	var h *message.Handler
 	switch pubKind {
+	case 3: // a handler that feeds its own topic: ONE object is subscriber and publisher, same topic
+		loop := &c02LoopPubSub{Subscriber: sub, pub: pub}
+		h = router.AddHandler("h", "in", loop, "in", loop, g.handler)
 	case 0:
 		h = router.AddHandler("h", "in", sub, "out", pub, g.handler)
 	case 1:
@@ -395,8 +411,11 @@ func cmdC02(args []string) error {
 	}
 	var all []*c02Case
 	n := 0
-	for pk := 0; pk < 3; pk++ {
+	for pk := 0; pk < 4; pk++ {
 		for _, mws := range prefixes {
+			if pk == 3 && len(mws) > 1 {
+				continue // the feedback-loop handler: a third of the middleware prefixes is enough
+			}
 			var group []*c02Case
 			for pre := 0; pre < 3; pre++ {
 				for _, sh := range outShapes {
